@@ -200,6 +200,11 @@ func (o *oracle) step(t int, r stepResult, obs []refObs) {
 			o.rangeDone(t, ret.rng)
 		}
 	}
+	if r.tok == "Fd" && o.tainted == "" && obs != nil && key < len(obs) && obs[key].present {
+		// the region that ends a failed LoadOrNew removes the placeholder: right after it the key is absent
+		o.fail("failed-constructor-left-key-present",
+			fmt.Sprintf("thread %d: LoadOrNew(%d) returned its constructor's error but the key is still in the pool (References = %d)", t, key, obs[key].n))
+	}
 	if ret.badType && o.tainted == "" {
 		o.fail("foreign-value", fmt.Sprintf("thread %d: a value of a foreign type came back", t))
 	}
@@ -316,6 +321,8 @@ func (o *oracle) finish(end string, c *controller) {
 				o.fail("released-value-not-destructed", fmt.Sprintf("value %d of key %d: all holders released it, every call returned, destructor ran %d times", v.id, vi.key, vi.destructed))
 			}
 		}
+	case "fuel":
+		o.fail("no-quiescence", "the calls never settle: after 6 regions per operation some call is still starting over")
 	case "deadlock":
 		o.fail("deadlock", "some calls can never return: every unfinished goroutine waits for a lock")
 	}
